@@ -38,7 +38,7 @@ def episode(ctx, case, nsteps=0):
         while True:
             if i < len(steps):
                 op, a = steps[i]
-            elif i < nsteps:
+            elif i < nsteps and len(m) <= 400000:     # beyond that the episode costs more than the harness can afford to model
                 if watched and ctx.rng.random() < 0.12:
                     op, a = 'mutate-operand', [ctx.rng.randrange(len(watched)), ctx.rng.choice(['invert', 'append', 'clear'])]
                 else:
